@@ -182,6 +182,101 @@ theorem msm_serial_spec (coeffs : List (List Nat)) (bases : List G) (acc : G)
 /-- Non-vacuity (ℤ as the group): `5·7 + 300·(-2)` through one Booth window of size 1. -/
 example : msmSerial [[5, 0], [44, 1]] [(7 : Int), -2] 0 = 5 * 7 + 300 * (-2) := by decide
 
+private theorem foldl_add_map {α : Type} (f : α → G) (L : List α) (init : G) :
+    L.foldl (fun a x => a + f x) init = init + (L.map f).sum := by
+  induction L generalizing init with
+  | nil => simp
+  | cons x t ih => rw [List.foldl_cons, ih, List.map_cons, List.sum_cons, add_assoc]
+
+private theorem msmSpec_take_drop (k : Nat) (a : List (List Nat)) (b : List G) :
+    msmSpec (a.take k) (b.take k) + msmSpec (a.drop k) (b.drop k) = msmSpec a b := by
+  unfold msmSpec
+  have ht : (a.take k).zip (b.take k) = (a.zip b).take k := by
+    simp only [List.zip_eq_zipWith, List.take_zipWith]
+  have hd : (a.drop k).zip (b.drop k) = (a.zip b).drop k := by
+    simp only [List.zip_eq_zipWith, List.drop_zipWith]
+  rw [ht, hd, ← List.sum_append, ← List.map_append, List.take_append_drop]
+
+private theorem par_chunks (k : Nat) (hk : 0 < k) : ∀ (fuel : Nat) (a : List (List Nat)) (b : List G)
+    (init : G), (∀ co ∈ a, ∀ x ∈ co, x < 256) → a.length = b.length → a.length ≤ fuel →
+    b.length < 2 ^ 32 →
+    ((chunksOfFuel fuel k a).zip (chunksOfFuel fuel k b)).foldl
+      (fun acc cb => acc + msmSerial cb.1 cb.2 0) init = init + msmSpec a b := by
+  intro fuel
+  induction fuel with
+  | zero =>
+    intro a b init _ hab hf _
+    have ha : a = [] := List.length_eq_zero_iff.mp (by omega)
+    subst ha
+    simp [chunksOfFuel, msmSpec]
+  | succ fuel ih =>
+    intro a b init hbytes hab hf h32
+    by_cases ha : a = []
+    · subst ha
+      simp [chunksOfFuel, msmSpec]
+    · have hb : b ≠ [] := by
+        intro hb; subst hb
+        exact ha (List.length_eq_zero_iff.mp (by simpa using hab))
+      have hk0 : k ≠ 0 := by omega
+      simp only [chunksOfFuel, List.isEmpty_iff, ha, hb, hk0, or_self, if_false, List.zip_cons_cons,
+        List.foldl_cons]
+      have hapos : 0 < a.length := List.length_pos_iff.mpr ha
+      rw [ih (a.drop k) (b.drop k) _ (fun co h => hbytes co (List.mem_of_mem_drop h))
+        (by simp [hab]) (by simp; omega) (by simp; omega)]
+      rw [msm_serial_spec (a.take k) (b.take k) 0 (fun co h => hbytes co (List.mem_of_mem_take h))
+        (by simp; omega), smul_zero, zero_add, add_assoc, msmSpec_take_drop]
+
+/-- `msm_parallel_spec`: for every positive number of rayon threads `t`, `msm_parallel` (chunks of
+`len / t` coefficients, one `msm_serial` per chunk — each with its own window size —, results
+added up) returns the naive sum. The result is therefore independent of the thread count. -/
+theorem msm_parallel_spec (t : Nat) (ht : 0 < t) (coeffs : List (List Nat)) (bases : List G)
+    (hbytes : ∀ co ∈ coeffs, ∀ b ∈ co, b < 256) (hlen : coeffs.length = bases.length)
+    (h32 : bases.length < 2 ^ 32) :
+    msmParallel t coeffs bases = msmSpec coeffs bases := by
+  unfold msmParallel
+  split
+  · next h =>
+    have hk : 0 < coeffs.length / t := Nat.div_pos (le_of_lt h) ht
+    unfold chunksOf
+    rw [← hlen, par_chunks _ hk coeffs.length coeffs bases 0 hbytes hlen (le_refl _) h32, zero_add]
+  · rw [msm_serial_spec coeffs bases 0 hbytes h32, smul_zero, zero_add]
+
+example : msmParallel 2 [[5], [44], [3], [9], [1]] [(7 : Int), -2, 1, 0, -7] = 35 - 88 + 3 - 7 := by
+  decide
+
+/-- `msm_zero_filter_ok` (`msm_specific`): dropping the terms whose scalar is zero before calling
+the underlying MSM (blst's Pippenger or `msm_best`) does not change the sum, and the empty
+remainder is the identity. -/
+theorem msm_zero_filter_ok (inner : List (List Nat) → List G → G)
+    (hinner : ∀ cs bs, cs.length = bs.length → inner cs bs = msmSpec cs bs)
+    (coeffs : List (List Nat)) (bases : List G) :
+    msmSpecific inner coeffs bases = msmSpec coeffs bases := by
+  unfold msmSpecific
+  simp only []
+  set kept := (coeffs.zip bases).filter (fun cb => decide (leBytesToNat cb.1 ≠ 0)) with hkept
+  have hsum : msmSpec (kept.map (·.1)) (kept.map (·.2)) = msmSpec coeffs bases := by
+    unfold msmSpec
+    have hz : (kept.map (·.1)).zip (kept.map (·.2)) = kept :=
+      (List.zip_of_prod (xs := kept) rfl rfl).symm
+    rw [hz, hkept]
+    generalize coeffs.zip bases = L
+    induction L with
+    | nil => simp
+    | cons x t ih =>
+      by_cases hx : leBytesToNat x.1 = 0
+      · rw [List.filter_cons_of_neg (by simp [hx]), ih, List.map_cons, List.sum_cons, hx, zero_smul,
+          zero_add]
+      · rw [List.filter_cons_of_pos (by simp [hx]), List.map_cons, List.sum_cons, ih, List.map_cons,
+          List.sum_cons]
+  split
+  · next h =>
+    have : kept = [] := List.isEmpty_iff.mp h
+    rw [← hsum, this]; simp [msmSpec]
+  · rw [hinner _ _ (by simp), hsum]
+
+example : msmSpecific (fun cs bs => msmSerial cs bs (0 : Int)) [[0], [3], [0, 0]] [5, 7, 11] = 21 := by
+  decide
+
 end
 
 end MidnightZK.C12
